@@ -221,6 +221,15 @@ func c19Run(line string) string {
 			return "bad-case"
 		}
 		snapshot := c19Ids(recs)
+		// the descriptor list / builder is used a second time on a fresh copy of the input: the answer must be the same
+		// (a sort that edits its descriptor list — reordering, consuming it — is right the first time only)
+		orig := append([]c19Rec{}, recs...)
+		again := func(first string, second string) string {
+			if second != strings.TrimSuffix(first, " mutated") {
+				return first + " again=" + second
+			}
+			return first
+		}
 		switch api {
 		case "sl", "sb":
 			var sds []fpgo.SortDescriptor[c19Rec]
@@ -233,13 +242,14 @@ func c19Run(line string) string {
 			}
 			if api == "sb" {
 				fpgo.SortBySortDescriptors(sds, recs)
-				return c19Ids(recs)
+				fpgo.SortBySortDescriptors(sds, orig)
+				return again(c19Ids(recs), c19Ids(orig))
 			}
 			out := c19Ids(fpgo.SortedListBySortDescriptors(sds, recs...))
 			if c19Ids(recs) != snapshot {
 				out += " mutated"
 			}
-			return out
+			return again(out, c19Ids(fpgo.SortedListBySortDescriptors(sds, orig...)))
 		case "slp", "bsp":
 			ptrs := make([]*c19Rec, len(recs))
 			for k := range recs {
@@ -291,13 +301,14 @@ func c19Run(line string) string {
 			}
 			if api == "bs" {
 				b.Sort(recs)
-				return c19Ids(recs)
+				b.Sort(orig)
+				return again(c19Ids(recs), c19Ids(orig))
 			}
 			out := c19Ids(b.ToSortedList(recs...))
 			if c19Ids(recs) != snapshot {
 				out += " mutated"
 			}
-			return out
+			return again(out, c19Ids(b.ToSortedList(orig...)))
 		}
 	case "C":
 		less := c19Cmp(head[2])
